@@ -395,6 +395,10 @@ func renderProgram(f *ast.File, fset *token.FileSet, p *RunPkg) (string, error) 
 			w("\t%q: %s,\n", n, n)
 		}
 	}
+	w("}\n\nvar modelTypes = map[string]reflect.Type{\n")
+	for _, n := range typeDeclNames(f) {
+		w("\t%q: reflect.TypeOf((*%s)(nil)).Elem(),\n", n, n)
+	}
 	w("}\n\nvar scopeKeys = map[string]interface{}{\n")
 	for _, n := range constNames(f, func(n string) bool { return strings.HasSuffix(n, "Scopes") }) {
 		w("\t%q: %s,\n", n, n)
@@ -582,4 +586,24 @@ func (p *RunPkg) CompileFailures() []compileFail {
 
 func (p *RunPkg) reset() {
 	p.Src, p.GenErr, p.BuildErr, p.Bin = "", nil, "", ""
+}
+
+// typeDeclNames: the non-generic top-level types of the generated file.
+func typeDeclNames(f *ast.File) []string {
+	var out []string
+	for _, d := range f.Decls {
+		gd, ok := d.(*ast.GenDecl)
+		if !ok || gd.Tok != token.TYPE {
+			continue
+		}
+		for _, sp := range gd.Specs {
+			ts := sp.(*ast.TypeSpec)
+			if ts.TypeParams != nil {
+				continue
+			}
+			out = append(out, ts.Name.Name)
+		}
+	}
+	sort.Strings(out)
+	return out
 }
